@@ -570,4 +570,151 @@ theorem written_file_objects (rows : List WRow) (hR : RowsOK rows) (hl : List By
     have hm := (hR.meas r (List.mem_filter.mp hr).1).1
     simp only [rowObj, objOfRow, posOf, Int.toNat_of_nonneg hm]
 
+/-! ### one lane of the written file, read back by the book -/
+
+theorem channelOf_mem (lay : Layout) (col : Nat) (ch : Bytes) (h : channelOf lay col = some ch) : (ch, col) ∈ lay.lanes := by
+  simp only [channelOf, Option.map_eq_some_iff] at h
+  obtain ⟨p, hp, rfl⟩ := h
+  have hm := List.mem_of_find?_eq_some hp
+  have he := List.find?_some hp
+  simp only [decide_eq_true_eq] at he
+  rw [← he]
+  exact List.mem_reverse.mp hm
+
+/-- on a well-formed layout, a lane's channel is the channel of exactly its own column -/
+theorem channelOf_iff (lay : Layout) (hlay : LayoutOK lay) (lane : Bytes × Nat) (hl : lane ∈ lay.lanes) (col : Nat) :
+    channelOf lay col = some lane.1 ↔ col = lane.2 := by
+  constructor
+  · intro h
+    have hm := channelOf_mem lay col lane.1 h
+    have h1 := hlay.mem (lane.1, col) hm
+    have h2 := hlay.mem lane hl
+    simp only at h1
+    rw [h1] at h2
+    injection h2
+  · intro e
+    subst e
+    cases hc : channelOf lay lane.2 with
+    | none =>
+      simp only [channelOf, Option.map_eq_none_iff, List.find?_eq_none] at hc
+      have := hc lane (List.mem_reverse.mpr hl)
+      simp at this
+    | some ch =>
+      have hm := channelOf_mem lay lane.2 ch hc
+      have h1 := hlay.mem (ch, lane.2) hm
+      have h2 := hlay.mem lane hl
+      rw [hlay.inj ch lane.1 lane.2 h1 h2]
+
+/-- the (time, id) pairs an item puts on its lane -/
+def TAtom.tv (ln : Bytes) : TAtom → List (Rat × Bytes)
+  | .hit t id => [(t, id)]
+  | .hold t1 t2 id => [(t1, id), (t2, ln)]
+
+theorem atoms_tv (F : Rat → Snap) (ln : Bytes) (items : List TAtom) :
+    (items.map (TAtom.toAtom F ln)).flatMap Atom.objs =
+      (items.flatMap (TAtom.tv ln)).map (fun p => (⟨posOf (F p.1), p.2⟩ : Obj)) := by
+  induction items with
+  | nil => rfl
+  | cons a t ih =>
+    simp only [List.map_cons, List.flatMap_cons, List.map_append, ih]
+    cases a <;> rfl
+
+theorem tv_times (ln : Bytes) (items : List TAtom) :
+    (items.flatMap (TAtom.tv ln)).map (·.1) = items.flatMap TAtom.times := by
+  induction items with
+  | nil => rfl
+  | cons a t ih =>
+    simp only [List.flatMap_cons, List.map_append, ih]
+    cases a <;> rfl
+
+/-- the items of the chart on one column: its hits, then its holds -/
+def laneItems (c : WChart) (dflt : Bytes) (col : Nat) : List TAtom :=
+  (c.hits.filter (fun h => h.col = col)).map (fun h => TAtom.hit h.offset (sampleId c.samples dflt h.sample)) ++
+  (c.holds.filter (fun h => h.col = col)).map (fun h => TAtom.hold h.offset h.tail (sampleId c.samples dflt h.sample))
+
+theorem flatMap_pair_perm {α β} (f g : α → β) (l : List α) : (l.flatMap (fun x => [f x, g x])).Perm (l.map f ++ l.map g) := by
+  induction l with
+  | nil => simp
+  | cons a t ih =>
+    simp only [List.flatMap_cons, List.map_cons, List.cons_append, List.nil_append]
+    refine List.Perm.cons _ ?_
+    exact (List.Perm.cons _ ih).trans (List.perm_middle.symm)
+
+/-- the rows of a lane's channel are the lane's items: hits and hold heads under their sample ids, hold tails
+under the `#LNOBJ` id, all at the positions `posFn` of their times; no tempo row lies on a lane's channel -/
+theorem lane_rows_perm (cs : List BcSnap) (lay : Layout) (hlay : LayoutOK lay) (dflt : Bytes) (c : WChart)
+    (hok : BmsOk cs lay c) (hv : ∀ r ∈ bmsNoteRows cs lay dflt c, r.value ≠ ['0', '0'])
+    (lane : Bytes × Nat) (hl : lane ∈ lay.lanes) :
+    (((bmsNoteRows cs lay dflt c ++ bmsTempoRows cs lay c).filter (rowShown lane.1)).map objOfRow).Perm
+      (((laneItems c dflt lane.2).map (TAtom.toAtom (posFn cs) c.lnEnd)).flatMap Atom.objs) := by
+  have hnt := hlay.not_tempo lane hl
+  simp only [Bool.or_eq_false_iff, decide_eq_false_iff_not] at hnt
+  have htempo : (bmsTempoRows cs lay c).filter (rowShown lane.1) = [] := by
+    rw [List.filter_eq_nil_iff]
+    intro r hr
+    simp only [bmsTempoRows, List.mem_map] at hr
+    obtain ⟨p, _, rfl⟩ := hr
+    simp only [rowShown, Bool.and_eq_true, decide_eq_true_eq, not_and]
+    intro e; exact absurd e.symm hnt.2
+  have hchan : ∀ col, (channelOf lay col).isSome = true → ((channelOf lay col).getD [] = lane.1 ↔ col = lane.2) := by
+    intro col hsome
+    obtain ⟨ch, hch⟩ := Option.isSome_iff_exists.mp hsome
+    rw [← channelOf_iff lay hlay lane hl col, hch]
+    simp
+  have hmemN : ∀ r, r ∈ bmsNoteRows cs lay dflt c → r.value ≠ ['0', '0'] := hv
+  -- the three blocks of note rows
+  have f1 : (c.hits.map (fun h => (⟨posFn cs h.offset, (channelOf lay h.col).getD [], sampleId c.samples dflt h.sample⟩ : WRow))).filter (rowShown lane.1)
+      = (c.hits.filter (fun h => h.col = lane.2)).map (fun h => (⟨posFn cs h.offset, (channelOf lay h.col).getD [], sampleId c.samples dflt h.sample⟩ : WRow)) := by
+    rw [List.filter_map]
+    congr 1
+    apply List.filter_congr
+    intro h hh
+    have hval := hmemN ⟨posFn cs h.offset, (channelOf lay h.col).getD [], sampleId c.samples dflt h.sample⟩
+      (by simp only [bmsNoteRows, List.mem_append, List.mem_map]; exact Or.inl (Or.inl ⟨h, hh, rfl⟩))
+    have := hchan h.col (hok.cols.1 h hh)
+    simp only [Function.comp, rowShown, hval, ne_eq, not_false_eq_true, decide_true, Bool.and_true]
+    exact decide_eq_decide.mpr this
+  have f2 : (c.holds.map (fun h => (⟨posFn cs h.offset, (channelOf lay h.col).getD [], sampleId c.samples dflt h.sample⟩ : WRow))).filter (rowShown lane.1)
+      = (c.holds.filter (fun h => h.col = lane.2)).map (fun h => (⟨posFn cs h.offset, (channelOf lay h.col).getD [], sampleId c.samples dflt h.sample⟩ : WRow)) := by
+    rw [List.filter_map]
+    congr 1
+    apply List.filter_congr
+    intro h hh
+    have hval := hmemN ⟨posFn cs h.offset, (channelOf lay h.col).getD [], sampleId c.samples dflt h.sample⟩
+      (by simp only [bmsNoteRows, List.mem_append, List.mem_map]; exact Or.inl (Or.inr ⟨h, hh, rfl⟩))
+    have := hchan h.col (hok.cols.2 h hh)
+    simp only [Function.comp, rowShown, hval, ne_eq, not_false_eq_true, decide_true, Bool.and_true]
+    exact decide_eq_decide.mpr this
+  have f3 : (c.holds.map (fun h => (⟨posFn cs h.tail, (channelOf lay h.col).getD [], c.lnEnd⟩ : WRow))).filter (rowShown lane.1)
+      = (c.holds.filter (fun h => h.col = lane.2)).map (fun h => (⟨posFn cs h.tail, (channelOf lay h.col).getD [], c.lnEnd⟩ : WRow)) := by
+    rw [List.filter_map]
+    congr 1
+    apply List.filter_congr
+    intro h hh
+    have hval := hmemN ⟨posFn cs h.tail, (channelOf lay h.col).getD [], c.lnEnd⟩
+      (by simp only [bmsNoteRows, List.mem_append, List.mem_map]; exact Or.inr ⟨h, hh, rfl⟩)
+    have := hchan h.col (hok.cols.2 h hh)
+    simp only [Function.comp, rowShown, hval, ne_eq, not_false_eq_true, decide_true, Bool.and_true]
+    exact decide_eq_decide.mpr this
+  rw [List.filter_append, htempo, List.append_nil]
+  unfold bmsNoteRows
+  rw [List.filter_append, List.filter_append, f1, f2, f3]
+  simp only [laneItems, List.map_append, List.map_map, List.flatMap_append]
+  have e1 : ∀ l : List HitOut, (l.map (TAtom.toAtom (posFn cs) c.lnEnd ∘ fun h => TAtom.hit h.offset (sampleId c.samples dflt h.sample))).flatMap Atom.objs
+      = l.map (objOfRow ∘ fun h => (⟨posFn cs h.offset, (channelOf lay h.col).getD [], sampleId c.samples dflt h.sample⟩ : WRow)) := by
+    intro l
+    induction l with
+    | nil => rfl
+    | cons a t ih => simp only [List.map_cons, List.flatMap_cons, ih]; rfl
+  have e2 : ∀ l : List WHold, (l.map (TAtom.toAtom (posFn cs) c.lnEnd ∘ fun h => TAtom.hold h.offset h.tail (sampleId c.samples dflt h.sample))).flatMap Atom.objs
+      = l.flatMap (fun h => [objOfRow (⟨posFn cs h.offset, (channelOf lay h.col).getD [], sampleId c.samples dflt h.sample⟩ : WRow),
+                             objOfRow (⟨posFn cs h.tail, (channelOf lay h.col).getD [], c.lnEnd⟩ : WRow)]) := by
+    intro l
+    induction l with
+    | nil => rfl
+    | cons a t ih => simp only [List.map_cons, List.flatMap_cons, ih]; rfl
+  rw [e1, e2, List.append_assoc]
+  refine List.Perm.append_left _ ?_
+  exact (flatMap_pair_perm _ _ _).symm
+
 end Reamber.BMS
